@@ -718,7 +718,7 @@ func checkLikeEscaping(r *Run, tp *packages.Package) {
 							return true
 						}
 						excluded := false
-						for _, l := range pathConditions(cc, call) {
+						for _, l := range controlConds(cc, call) {
 							ast.Inspect(l.Expr, func(k ast.Node) bool {
 								if be, ok := k.(*ast.BinaryExpr); ok {
 									for _, side := range []ast.Expr{be.X, be.Y} {
